@@ -755,6 +755,14 @@ class VHDXInspector(FileInspector):
                     '<QII', entry[16:])
                 self._trace('Meta entry %i specifies offset: %x',
                             i, meta_offset)
+                # We are streaming: a region that starts before the end of
+                # the region table we just finished reading can no longer
+                # be captured (and no valid image places it there).
+                header = self.region('header')
+                if meta_offset < header.offset + header.length:
+                    raise ImageFormatError(
+                        'Metadata region offset %x precedes the end of '
+                        'the region table' % meta_offset)
                 # NOTE(danms): The meta_len in the region descriptor is the
                 # entire size of the metadata table and data. This can be
                 # very large, so we should only capture the size required
@@ -801,6 +809,12 @@ class VHDXInspector(FileInspector):
                     meta_buffer[entry_offset + 16:entry_offset + 28])
                 item_length = min(item_length,
                                   self.VHDX_METADATA_TABLE_MAX_SIZE)
+                # Items live after the metadata table; one pointing into
+                # the table itself may already have been streamed past.
+                if item_offset < entries_size:
+                    raise ImageFormatError(
+                        'Metadata item offset %x is inside the metadata '
+                        'table' % item_offset)
                 self.region('metadata').length = len(meta_buffer)
                 self._trace('Found entry at offset %x', item_offset)
                 # Metadata item offset is from the beginning of the metadata
